@@ -138,6 +138,10 @@ func NewSpanCase(r *rand.Rand, o SpanOpts) SpanCase {
 				traces[i][j] = 0xff // maximal id
 			}
 			traces[i][15] = byte(i)
+		} else if o.Zipkin && r.Intn(5) == 0 {
+			for j := 0; j < 8; j++ {
+				traces[i][j] = 0 // 64-bit trace id: rendered as 16 hex digits
+			}
 		}
 	}
 	unit := int64(1)
@@ -182,6 +186,9 @@ func NewSpanCase(r *rand.Rand, o SpanOpts) SpanCase {
 		perm := r.Perm(len(attrNames))
 		for j := 0; j < na; j++ {
 			s.Attrs = append(s.Attrs, randAttr(r, attrNames[perm[j]], o, 0))
+		}
+		if o.BigAttrs && i == 0 {
+			s.Attrs = append(s.Attrs, Attr{Key: "big.blob", Kind: "str", S: strings.Repeat(SafeStr(r, 5, 9), 12000)})
 		}
 		c.Spans = append(c.Spans, s)
 	}
@@ -266,8 +273,12 @@ func RenderOTLP(r *rand.Rand, c SpanCase) Request {
 func RenderZipkin(r *rand.Rand, c SpanCase, ndjson bool) Request {
 	var items []string
 	for _, s := range c.Spans {
+		tid := hex.EncodeToString(s.TraceID)
+		if strings.HasPrefix(tid, "0000000000000000") {
+			tid = tid[16:]
+		}
 		parts := []string{
-			`"traceId":"` + hex.EncodeToString(s.TraceID) + `"`,
+			`"traceId":"` + tid + `"`,
 			`"id":"` + hex.EncodeToString(s.SpanID) + `"`,
 			`"name":` + jstr(nil, s.Name),
 		}
